@@ -242,3 +242,7 @@ def run(ctx):
 
     with ctx.rule("C04.R9", "T5", "named arguments are passed in their parameters' positions (no two flags or ids change places at a call site)", floor=20) as r:
         named_argument_rule(ctx, r, [("swimos_runtime", "swimos_runtime::agent::task")], allow={})
+
+    with ctx.rule("C04.R10", "T1+T7", "every frame is addressed with the lane it belongs to (sender state set per frame)", floor=15) as r:
+        uplinks.frame_lane_name(r, ctx)
+
